@@ -292,6 +292,26 @@ def next (s : PState) : List (Label × PState) :=
   (if !s.pclosed then [(.apiStop, { s with pclosed := true })] else []) ++
   rsendSteps s
 
+/-- the variant the trace checker follows: a large bound on the pending-input abstraction (a fast
+remote can have many messages in flight; the bound of `next` only exists to keep the state space
+finite), and a message written on a connection the FSM holds is always enqueued (the "lands nowhere"
+alternative of `rsendSteps` is kept only for connections corebgp does not hold) — otherwise the set of
+compatible states would double with every message -/
+def rsendStepsB (bound : Nat) (s : PState) : List (Label × PState) :=
+  [Dir.out, Dir.inn].flatMap fun i =>
+    [MsgC.openOk, .openBad, .ka, .upd, .updVeto, .notifCease, .notifOther, .garbage, .eof].flatMap fun m =>
+      let x := s.f i
+      if x.conn && x.inq.length < bound then [(Label.rsend i m, s.setF i { x with inq := x.inq ++ [m] })]
+      else [(Label.rsend i m, s)]
+
+def nextB (bound : Nat) (s : PState) : List (Label × PState) :=
+  (match s.todo with
+   | [] => pMain s
+   | ins :: rest => pInstr s ins rest) ++
+  fSteps s .out ++ fSteps s .inn ++
+  (if !s.pclosed then [(.apiStop, { s with pclosed := true })] else []) ++
+  rsendStepsB bound s
+
 /-- `peer.start()`: `enableFSM(out)` then the manager runs -/
 def pInit (dominant passive : Bool) : PState :=
   if passive then { dominant, passive }
